@@ -27,7 +27,7 @@ REAL, STUBBED = C.REAL, C.STUBBED
 
 
 def budget(tier):
-    return dict(nights=72, wall_s=170) if tier == "quick" else dict(nights=1800, wall_s=1700)
+    return dict(nights=140, wall_s=240) if tier == "quick" else dict(nights=1800, wall_s=1700)
 
 
 WORLD = dict(offices=["G", "S", "H"], unit_types=["precinct", "precinct", "county"], n_states=(2, 4), n_counties=(2, 5),
